@@ -2,7 +2,7 @@
 from metapype.eml import evaluate
 from metapype.eml.evaluation_warnings import EvaluationWarning
 from metapype.model.node import Node
-from harness.hlib import nodes, snap, part
+from harness.hlib import fresh, nodes, snap, part
 
 GROUP = part(0)
 
@@ -53,7 +53,7 @@ def run_eval(root):
 
 
 def _dataset(title_w, abstract, abs_w, cov, dt, ir, ks1, ks2, meth, proj) -> str:
-    Node.store.clear()
+    fresh()
     ds = mk("dataset", "ds")
     ds.add_child(mk("title", "t", words(title_w)))
     exp = []
@@ -161,7 +161,7 @@ def h_party(kind: int, u1: int, u2: int, email: int, name: int) -> str:
     pre: 0 <= kind <= 4 and 0 <= u1 <= 4 and 0 <= u2 <= 4 and 0 <= email <= 2 and 0 <= name <= 4
     post: _ == ""
     """
-    Node.store.clear()
+    fresh()
     kind = cint(kind, 0, 4)
     email = cint(email, 0, 2)
     name = cint(name, 0, 4)
@@ -222,7 +222,7 @@ def h_entity(which: bool, desc: int, size: int, auth: int, nrec: int, delim: int
     pre: 0 <= desc <= 2 and 0 <= size <= 2 and 0 <= auth <= 2 and 0 <= nrec <= 2 and 0 <= delim <= 3
     post: _ == ""
     """
-    Node.store.clear()
+    fresh()
     desc, size, auth, nrec, delim = cint(desc, 0, 2), cint(size, 0, 2), cint(auth, 0, 2), cint(nrec, 0, 2), cint(delim, 0, 3)
     e = mk("dataTable" if which else "otherEntity", "e")
     exp = []
@@ -273,7 +273,7 @@ def h_description(parent: int, fill: int) -> str:
     pre: 0 <= parent <= 9 and 0 <= fill <= 4
     post: _ == ""
     """
-    Node.store.clear()
+    fresh()
     parent = cint(parent, 0, 9)
     fill = cint(fill, 0, 4)
     pname = list(DESC_PARENTS)[parent]
